@@ -218,6 +218,7 @@ func (p *Policy) sanitize(r io.Reader, w io.Writer) error {
 		skippingElementsCount    int64
 		skipClosingTag           bool
 		closingTagToSkipStack    []string
+		closingTagToSkipCount    = map[string]int{}
 		mostRecentlyStartedToken string
 	)
 
@@ -298,6 +299,7 @@ func (p *Policy) sanitize(r io.Reader, w io.Writer) error {
 					if !voidElement(token.Data) {
 						skipClosingTag = true
 						closingTagToSkipStack = append(closingTagToSkipStack, token.Data)
+						closingTagToSkipCount[token.Data]++
 					}
 					if p.addSpaces {
 						if _, err := buff.WriteString(" "); err != nil {
@@ -306,6 +308,13 @@ func (p *Policy) sanitize(r io.Reader, w io.Writer) error {
 					}
 					break
 				}
+			}
+
+			// an element that is kept while an element of the same name is
+			// waiting for its closing tag to be skipped must claim its own
+			// closing tag first
+			if closingTagToSkipCount[token.Data] > 0 && !voidElement(token.Data) {
+				closingTagToSkipStack = append(closingTagToSkipStack, keptPrefix+token.Data)
 			}
 
 			if !skipElementContent {
@@ -331,8 +340,12 @@ func (p *Policy) sanitize(r io.Reader, w io.Writer) error {
 				}
 			}
 
-			if skipClosingTag && closingTagToSkipStack[len(closingTagToSkipStack)-1] == token.Data {
+			if skipClosingTag && closingTagToSkipStack[len(closingTagToSkipStack)-1] == keptPrefix+token.Data {
+				// closing tag of a kept element, handled as usual below
 				closingTagToSkipStack = closingTagToSkipStack[:len(closingTagToSkipStack)-1]
+			} else if skipClosingTag && closingTagToSkipStack[len(closingTagToSkipStack)-1] == token.Data {
+				closingTagToSkipStack = closingTagToSkipStack[:len(closingTagToSkipStack)-1]
+				closingTagToSkipCount[token.Data]--
 				if len(closingTagToSkipStack) == 0 {
 					skipClosingTag = false
 				}
@@ -988,6 +1001,10 @@ func (p *Policy) validURL(rawurl string) (string, bool) {
 
 	return rawurl, true
 }
+
+// keptPrefix marks the entries of the stack of closing tags to skip that belong
+// to elements that were kept; it cannot occur in a tag name
+const keptPrefix = ">"
 
 // voidElement returns true for elements that never have an end tag
 func voidElement(elementName string) bool {
